@@ -34,9 +34,10 @@ FN = {"sin": sp.sin, "cos": sp.cos, "tan": sp.tan, "exp": sp.exp, "log": sp.log,
 class Env:
     """Objects shared by one case: fields, constants, mapping, domain."""
 
-    def __init__(self, dim=3, mapping=None):
+    def __init__(self, dim=3, mapping=None, map_pdim=None):
         from sympde.topology import Domain, ScalarFunctionSpace, VectorFunctionSpace
         self.dim = dim
+        self.map_pdim = map_pdim      # None: square mappings (pdim = ldim = dim); n: curve / surface mappings with pdim = n
         self.domain = Domain("Omega", dim=dim)
         self.V = ScalarFunctionSpace("V", self.domain)
         self.W = VectorFunctionSpace("W", self.domain)
@@ -66,7 +67,10 @@ class Env:
     def map(self, name):
         from sympde.topology import Mapping
         if name not in self.maps:
-            self.maps[name] = Mapping(name, dim=self.dim)
+            if self.map_pdim is None:
+                self.maps[name] = Mapping(name, dim=self.dim)
+            else:
+                self.maps[name] = Mapping(name, ldim=self.dim, pdim=self.map_pdim)
         return self.maps[name]
 
 
@@ -413,8 +417,15 @@ def opaque_name(name, inner):
     return name + "".join(_run_suffix(lg, al) for lg, al in reversed(inner))
 
 
-def ser_atom_rel(expr, fam):
-    """like ser_atom, but mixed chains are accepted and read relative to the family `fam`"""
+MAPFLD = "@map"      # suffix of the field name that stands for a mapping seen from the physical family
+
+
+def ser_atom_rel(expr, fam, mapfld=False):
+    """like ser_atom, but mixed chains are accepted and read relative to the family `fam`.
+    mapfld: seen from the PHYSICAL family a mapping component M[i] (a function of the logical coordinates) is an element
+    of the differential field like any other: it is written as component i of the opaque vector field "M@map" (plus the
+    suffixes of the inner runs), so that dx(M[i]) is an ordinary derivative atom and the Leibniz / chain rules of the
+    model and of the reference apply to expressions in the M[i]."""
     from sympde.topology.space import ScalarFunction, VectorFunction, IndexedVectorFunction
     from sympde.calculus.core import minus, plus
     from sympde.core.basic import Constant, BasicMapping
@@ -442,6 +453,11 @@ def ser_atom_rel(expr, fam):
         return {"k": "at", "t": "fld", "lg": lg, "f": opaque_name(base.base.name, inner), "c": int(idx[0]) + 1,
                 "s": side, "al": al}
     if isinstance(base, Indexed) and isinstance(base.base, BasicMapping):
+        if mapfld and not fam:
+            if side != "0":
+                raise Unsupported("restriction of a mapping component")
+            return {"k": "at", "t": "fld", "lg": lg, "f": opaque_name(str(base.base.name) + MAPFLD, inner),
+                    "c": int(base.indices[0]) + 1, "s": "0", "al": al}
         if inner or (runs and not fam):
             raise Unsupported("physical derivative of a mapping component")
         return {"k": "at", "t": "map", "m": base.base.name, "i": int(base.indices[0]), "al": al}
@@ -450,7 +466,7 @@ def ser_atom_rel(expr, fam):
     return ser_atom(base)
 
 
-def ser_sx_rel(expr, fam):
+def ser_sx_rel(expr, fam, mapfld=False):
     """ser_sx with every derivative chain read relative to the family `fam` (see above).  On expressions without
     mixed chains whose derivatives all belong to `fam` it returns exactly ser_sx(expr)."""
     from sympde.topology.derivatives import DifferentialOperator
@@ -463,25 +479,25 @@ def ser_sx_rel(expr, fam):
     if isinstance(expr, sp.Float):
         raise Unsupported("float literal")
     if isinstance(expr, (DifferentialOperator, minus, plus)):
-        return ser_atom_rel(expr, fam)
+        return ser_atom_rel(expr, fam, mapfld)
     if isinstance(expr, (Symbol, sp.Indexed)):
-        return ser_atom_rel(expr, fam)
+        return ser_atom_rel(expr, fam, mapfld)
     if isinstance(expr, Add):
-        return {"k": "add", "a": [ser_sx_rel(a, fam) for a in expr.args]}
+        return {"k": "add", "a": [ser_sx_rel(a, fam, mapfld) for a in expr.args]}
     if isinstance(expr, Mul):
-        return {"k": "mul", "a": [ser_sx_rel(a, fam) for a in expr.args]}
+        return {"k": "mul", "a": [ser_sx_rel(a, fam, mapfld) for a in expr.args]}
     if isinstance(expr, Pow):
         b, e = expr.base, expr.exp
         rest, n = _split_exponent(e)
         if rest == 0:
-            return {"k": "pow", "b": ser_sx_rel(b, fam), "e": _num(n)}
-        gen = {"k": "pow", "b": ser_sx_rel(b, fam), "e": ser_sx_rel(rest, fam)}
+            return {"k": "pow", "b": ser_sx_rel(b, fam, mapfld), "e": _num(n)}
+        gen = {"k": "pow", "b": ser_sx_rel(b, fam, mapfld), "e": ser_sx_rel(rest, fam, mapfld)}
         if n == 0:
             return gen
-        return {"k": "mul", "a": [gen, {"k": "pow", "b": ser_sx_rel(b, fam), "e": _num(n)}]}
+        return {"k": "mul", "a": [gen, {"k": "pow", "b": ser_sx_rel(b, fam, mapfld), "e": _num(n)}]}
     for name, f in FN.items():
         if isinstance(expr, f):
-            return {"k": "fn", "f": name, "a": ser_sx_rel(expr.args[0], fam)}
+            return {"k": "fn", "f": name, "a": ser_sx_rel(expr.args[0], fam, mapfld)}
     raise Unsupported("node %s" % type(expr).__name__)
 
 
